@@ -325,6 +325,19 @@ def parallel_cases(seed, count, max_side, tag, kinds=None, big=False):
         yield flow_case("%s-%d-%d" % (tag, seed, i), g, steps, timeout_ms=30000)
 
 
+def controlled(cases, seed):
+    """The same cases executed under the harness' controlled scheduler (case field ctl): every pool
+    point, every neighbour look-up made by a worker and every kernel call is a schedule point; the
+    schedule is drawn from ctl.seed (pct < 0: uniform choice at every point, otherwise PCT priorities
+    with pct change points in the first cp_range steps)."""
+    rng = random.Random(seed)
+    for c in cases:
+        c["ctl"] = dict(seed=rng.randrange(1 << 30), pct=rng.choice([-1, -1, 2, 4]), cp_range=rng.choice([400, 3000]),
+                        max_steps=3000000)
+        c["id"] += "-ctl"
+        yield c
+
+
 def basin_graph_cases(seed, count, max_side, tag, high_degree=0):
     """C15: stand-alone basin graphs (both tree algorithms) on single-router graphs; heavy ties; the
     same basin-graph object is updated again with other fields, masks and base levels."""
